@@ -18,29 +18,35 @@ EXPLANATION = (
 ASSUMPTIONS = ["Spec is my transcription of the RFC formats and the crate's documented conventions"]
 
 
+def build(meta):
+    start, et, data = meta["start"], meta["et"], D.meta_bytes(meta)
+    suf, pre = D.entry_suffix(start, et)
+    lines = ["dec.sp_%s\t%s%s" % (suf, pre, hx(data)), D.spec_line(start, et, data)]
+    if start == "eth":
+        lines.append("dec.eth2\t" + hx(data))
+    elif start == "sll":
+        lines.append("dec.sll\t" + hx(data))
+    elif start == "ip":
+        lines += ["dec.ip_slice\t" + hx(data), "dec.ipv4_slice\t" + hx(data), "dec.ipv6_slice\t" + hx(data)]
+        lines.append(["dec.udp\t", "dec.tcp\t", "dec.icmp4\t", "dec.icmp6\t"][meta.get("k", 0)] + hx(data))
+    elif start == "et":
+        if et == 0x88E5:
+            lines.append("dec.macsec\t" + hx(data))
+        elif et in (0x8100, 0x88A8, 0x9100):
+            lines.append("dec.vlan\t" + hx(data))
+        elif et == 0x0806:
+            lines.append("dec.arp\t" + hx(data))
+    return Case(lines, meta)
+
+
+rebuild = build
+
+
 def generate(rng, tier):
     n = 14000 if tier == "quick" else 400000
     tb = 60 if tier == "quick" else 1500
     for start, et, data, meta in D.base_inputs(rng, n, tb):
-        suf, pre = D.entry_suffix(start, et)
-        lines = ["dec.sp_%s\t%s%s" % (suf, pre, hx(data)), D.spec_line(start, et, data)]
-        if start == "eth":
-            lines.append("dec.eth2\t" + hx(data))
-        elif start == "sll":
-            lines.append("dec.sll\t" + hx(data))
-        elif start == "ip":
-            lines += ["dec.ip_slice\t" + hx(data), "dec.ipv4_slice\t" + hx(data), "dec.ipv6_slice\t" + hx(data)]
-            k = rng.randrange(4)
-            lines.append(["dec.udp\t", "dec.tcp\t", "dec.icmp4\t", "dec.icmp6\t"][k] + hx(data))
-        elif start == "et":
-            if et == 0x88E5:
-                lines.append("dec.macsec\t" + hx(data))
-            elif et in (0x8100, 0x88A8, 0x9100):
-                lines.append("dec.vlan\t" + hx(data))
-            elif et == 0x0806:
-                lines.append("dec.arp\t" + hx(data))
-        meta["data"] = hx(data)
-        yield Case(lines, meta)
+        yield build(meta)
 
 
 def is_trivial(c):
